@@ -82,7 +82,7 @@ impl Monitor for Wrapped {
     fn run_case(&self, stream: &str, idx: u64, seed: u64, rec: &mut Recorder) {
         if stream == "api-contexts" {
             if !spec::engine::layer().starts_with("miri") {
-                adapt::judge_digest_contexts(rec);
+                adapt::judge_digest_contexts(self.0.id(), rec);
             }
             return;
         }
@@ -111,11 +111,11 @@ impl Monitor for Wrapped {
     }
     fn cold_start(&self, rec: &mut Recorder) {
         if std::env::var("VERIF_COLDSTART_CHILD").as_deref() == Ok("2") {
-            adapt::default_cold_start(rec);
+            adapt::default_cold_start(self.0.id(), rec);
             self.0.cold_start(rec);
         } else {
             self.0.cold_start(rec);
-            adapt::default_cold_start(rec);
+            adapt::default_cold_start(self.0.id(), rec);
         }
     }
 }
